@@ -224,12 +224,16 @@ Definition kms_asis_prog (o : kop) : thr kstate kout :=
   end.
 
 (* wallet session manager: one live session per user *)
-Inductive sop := SCreate (user : N) | SClose (user : N).
-Inductive sout := SToken | SAlready | SClosed (b : bool).
-Definition sess_step (s : list N) (o : sop) : list N * sout :=
+Inductive sop := SCreate (user tok : N)    (* tok: the harness's number for the token this call returns, if it returns one *)
+  | SClose (user : N)
+  | SGet (tok : N).                          (* getSession with that token *)
+Inductive sout := SToken | SAlready | SClosed (b : bool) | SLive (b : bool).
+Definition sess_step (s : list (N * N)) (o : sop) : list (N * N) * sout :=
   match o with
-  | SCreate u => if existsb (N.eqb u) s then (s, SAlready) else (u :: s, SToken)
-  | SClose u => if existsb (N.eqb u) s then (filter (fun x => negb (N.eqb x u)) s, SClosed true) else (s, SClosed false)
+  | SCreate u t => if existsb (fun x => N.eqb (fst x) u) s then (s, SAlready) else ((u, t) :: s, SToken)
+  | SClose u => if existsb (fun x => N.eqb (fst x) u) s
+                then (filter (fun x => negb (N.eqb (fst x) u)) s, SClosed true) else (s, SClosed false)
+  | SGet t => (s, SLive (existsb (fun x => N.eqb (snd x) t) s))
   end.
 
 (* service.Action registry: at most one registered channel *)
